@@ -21,7 +21,7 @@ ASSUMPTIONS = [
     "ATTRIBUTE_UNRECOGNIZED / ATTRIBUTE_EXPECTED_ENUM with the attribute name as first detail",
     "fail-fast: any exception of the MetapypeRuleError family counts as 'raises for the first'",
 ]
-REQUIRED = ["validations_on_long_lived_node", "rule_table_unchanged_after_queries", "aliasing_probes", "assignments_valid", "assignments_invalid", "introspection_required_checked", "introspection_values_checked",
+REQUIRED = ["domain_words_in_free_form_attributes", "validations_on_long_lived_node", "rule_table_unchanged_after_queries", "aliasing_probes", "assignments_valid", "assignments_invalid", "introspection_required_checked", "introspection_values_checked",
             "viol_required", "viol_unrecognized", "viol_enum"]
 EXHAUSTIVE = {"quick": True, "thorough": True}
 
@@ -325,6 +325,16 @@ def run_rule(ctx, rule_name, part=0, parts=1):
                     ctx.sample({"rule": rule_name, "element": el, "attributes": order, "expected_violations": exp,
                                 "failfast": ff, "collecting": cod})
     if part == 0:
+        # free-form attributes take any value: every word of the domain (directories, functions, phone types, languages ...) on an
+        # otherwise valid node is accepted, and nothing else about the node is reported because of it
+        from vlib import domain
+        valid0 = [(a, spec[1] if len(spec) > 1 else "v") for a, spec in table.items() if spec[0] is True]
+        for a, spec in table.items():
+            if len(spec) == 1:
+                for w in domain.ATTRIBUTE_WORDS:
+                    judge(ctx, rule_name, elements[n_cases % len(elements)], kids, table, [x for x in valid0 if x[0] != a] + [(a, w)])
+                    ctx.count("domain_words_in_free_form_attributes")
+                    n_cases += 1
         # values that only differ from a listed one by white space around (or inside) them are not listed
         valid = [(a, spec[1] if len(spec) > 1 else "v") for a, spec in table.items() if spec[0] is True]
         for a, spec in table.items():
